@@ -501,6 +501,7 @@ def run_reactor(ctx: Any, traces: list[dict] | None = None, n: int | None = None
         if len(steps) != len(acts):
             ctx.tie_fail("X01 driver answered another number of steps", rep0)
             continue
+        prev_noversion = False
         for k, (a, im, m) in enumerate(zip(acts, t["impl"], steps)):
             if im is None:
                 if "delete" in a:
@@ -556,9 +557,19 @@ def run_reactor(ctx: Any, traces: list[dict] | None = None, n: int | None = None
                 # version, the model sees a no-op. The rest of this history is not compared.
                 ctx.count("x01_model_limit", "re-run on a stale view: record differs in a field C02.Rec does not carry (stopped): history cut here")
                 break
+            if t.get("const") and prev_noversion and 0 < real["now"] - model["now"] <= t["req"][1]["lat"] \
+                    and {k2: real[k2] for k2 in real if k2 != "now"} == {k2: model[k2] for k2 in model if k2 != "now"}:
+                # stated limit, cause known (replays/C03-5-0.json): C03's `handleTurn` charges NO time for the constant request when
+                # nothing else follows it (`nextState … s.now false (writes + cp)`), the real processor returns one round trip later; an
+                # event that arrives inside that round trip is dequeued when the processor returns — up to `lat` ticks later than in the
+                # model. Only here: on.event constant, the iteration before sent a request that made no version, every compared key but
+                # the dequeue time agrees, the real time is later by at most the round trip. The rest of this history is not compared.
+                ctx.count("x01_model_limit", "constPatch: dequeue time late by up to one round trip after a constant-only request (C03 charges it no time): history cut here")
+                break
             if not ctx.compare("X01 composed worker iteration (view version, time, barrier decision, invocations, version "
                                "returned, object/memory after)", real, model, rep):
                 break       # the model's state has diverged: later iterations of this history say nothing new
+            prev_noversion = bool(im["writes"] >= 1 and im["patched"] is None)
             if im["_released"]:
                 ctx.compare("X01 the release is answered with a version that never arrives (the model's `never` flag)", {"never": True},
                             {"never": str(im["_result_rv"] or "").endswith("~which~never~arrives")}, rep)
